@@ -92,14 +92,21 @@ def drive(ctx, ops, cid):
                 if before != (w.custom_numbers(), len(w.tasks.pending), w.installed()):
                     fails.append(("refused-left-trace", "a refused registration changed the registrations / pending tasks"))
             elif k == "register":
-                handle = w.svc.add_custom("reg.py", op[2], {"fire_count": "-1"}, [str(op[1])], [])
+                try:
+                    handle = w.svc.add_custom("reg.py", op[2], {"fire_count": "-1"}, [str(op[1])], [])
+                except BaseException as e:
+                    fails.append(("register-raised", "a well-formed registration raised %r" % (e,)))
+                    handle = "registration-failed-%d" % len(w.handles)
                 w.handles.append(handle)
                 regs_live[len(w.handles) - 1] = op[1]
             elif k == "unregister":
                 idx = op[1]
                 if idx < len(w.handles):
                     before = w.custom_numbers()
-                    w.svc.remove_custom(w.handles[idx])
+                    try:
+                        w.svc.remove_custom(w.handles[idx])
+                    except BaseException as e:
+                        fails.append(("unregister-raised", "unregistering a handle raised %r" % (e,)))
                     after = w.custom_numbers()
                     want = [n for n in before if n != regs_live.get(idx)]
                     if after != want:
@@ -107,7 +114,10 @@ def drive(ctx, ops, cid):
                                       "into %r (expected %r)" % (regs_live.get(idx, "(already removed)"), before, after, want)))
                     regs_live.pop(idx, None)
                 else:
-                    w.svc.remove_custom("no-such-handle")
+                    try:
+                        w.svc.remove_custom("no-such-handle")
+                    except BaseException as e:
+                        fails.append(("unregister-raised", "unregistering a handle that was never returned raised %r" % (e,)))
             else:
                 w.tasks.run(op[1])
             obs.append(w.installed())
@@ -116,7 +126,7 @@ def drive(ctx, ops, cid):
             # configuration and its registrations; that the registrations are the right ones is C13)
             if not w.tasks.pending:
                 want = polled + w.custom_numbers()
-                if w.installed() != want:
+                if sorted(w.installed()) != sorted(want):
                     fails.append(("not-converged", "no update task pending, the handler acts on %r, the service holds the polled configuration %r "
                                   "and the registrations %r" % (w.installed(), polled, w.custom_numbers())))
                 want_reg = [regs_live[i2] for i2 in sorted(regs_live)]
@@ -211,7 +221,8 @@ def timer_continues(ctx):
 # which oracle belongs to which property: C12 = the handler converges to what the service holds, failed polls change nothing,
 # the reported hash; C13 = handles (refusal leaves no trace, unregister removes exactly its registration, handles are distinct)
 OWN = {"C12": {"poll-raised", "nochange-altered", "failed-poll-accepted", "failed-poll-altered", "not-converged", "hash"},
-       "C13": {"bad-accepted", "bad-raised", "refused-left-trace", "unregister-wrong", "handle-shared", "registered-not-active"}}
+       "C13": {"bad-accepted", "bad-raised", "refused-left-trace", "unregister-wrong", "handle-shared", "registered-not-active",
+               "register-raised", "unregister-raised"}}
 WEIGHTS_C12 = dict(update=0.3, nochange=0.1, failed=0.1, register=0.12, run=0.28)
 WEIGHTS_C13 = dict(update=0.1, nochange=0.03, failed=0.02, register=0.35, run=0.2)
 
